@@ -5,7 +5,7 @@
    (b) the segment (Net/Commute.v, Pd/Layout.v): datagrams naming different stations commute, and a
        group's cycle passes through the devices of other groups unchanged. *)
 From EC Require Import Base.Prelude Base.Bytes Pdu.Frame Pdu.Slots Pdu.SlotsProofs Pdu.Client Pdu.ClientProofs
-  Pdu.Isolation Pd.Layout Pd.LayoutProofs Net.Commute Pdu.IdxAlloc Pdu.IdxAllocProofs Gen.IdxProgram.
+  Pdu.Isolation Pd.Layout Pd.LayoutProofs Net.Commute Net.Interleave Pdu.IdxAlloc Pdu.IdxAllocProofs Gen.IdxProgram.
 Local Open Scope N_scope.
 
 (* (a1) an operation on a handle changes that handle's slot only *)
@@ -119,3 +119,42 @@ Theorem c20_split_alloc_refuted : ~ (forall c0 n sched, c0 < 256 -> (length sche
   NoDup (results (arun [PLoad; PStore] sched (ainit c0 n)))).
 Proof. exact split_not_distinct. Qed.
 Print Assumptions c20_split_alloc_refuted.
+
+(* ---- composition on the segment: ANY interleaving of two tasks' operations ---- *)
+
+(* For any kind of operation that looks only at its footprint on the segment and changes nothing
+   outside it: operations of two tasks with disjoint footprints, interleaved in ANY order, give
+   each task exactly the answers of its run alone from the same segment state; each task's part of
+   the segment ends as after that run; the rest of the segment is untouched.  (The result each
+   operation "would yield running alone against the same device state".) *)
+Theorem c20_interleave : forall (op R : Type) (ex : seg -> op -> seg * R) (foot : op -> N -> Prop),
+  (forall o s t, agree_on (foot o) s t -> snd (ex s o) = snd (ex t o) /\ agree_on (foot o) (fst (ex s o)) (fst (ex t o))) ->
+  (forall o s a, ~ foot o a -> present (fst (ex s o)) a = present s a /\ forall x, memory (fst (ex s o)) a x = memory s a x) ->
+  forall PA PB : N -> Prop, (forall a, PA a -> PB a -> False) -> (forall o a, foot o a \/ ~ foot o a) ->
+  forall l s, fits op foot PA PB l ->
+  let '(s', ra, rb) := run_tagged op R ex s l in
+  ra = snd (run op R ex s (ops_of op true l)) /\ rb = snd (run op R ex s (ops_of op false l)) /\
+  agree_on PA s' (fst (run op R ex s (ops_of op true l))) /\ agree_on PB s' (fst (run op R ex s (ops_of op false l))) /\
+  (forall a, ~ PA a -> ~ PB a -> present s' a = present s a /\ forall x, memory s' a x = memory s a x).
+Proof. exact interleave. Qed.
+Print Assumptions c20_interleave.
+
+(* configured-address datagrams (register accesses, every step of a mailbox exchange) are such
+   operations, their footprint being the station they name: two tasks talking to disjoint sets of
+   SubDevices, interleaved in ANY order *)
+Theorem c20_fp_tasks_interleave : forall (PA PB : N -> Prop) l s, (forall a, PA a -> PB a -> False) ->
+  Forall (fun p : bool * dgram => if fst p then PA (station_of (snd p)) else PB (station_of (snd p))) l ->
+  let '(s', ra, rb) := run_tagged dgram (list N * N) exec s l in
+  ra = snd (run dgram (list N * N) exec s (ops_of dgram true l)) /\
+  rb = snd (run dgram (list N * N) exec s (ops_of dgram false l)) /\
+  agree_on PA s' (fst (run dgram (list N * N) exec s (ops_of dgram true l))) /\
+  agree_on PB s' (fst (run dgram (list N * N) exec s (ops_of dgram false l))) /\
+  (forall a, ~ PA a -> ~ PB a -> present s' a = present s a /\ forall x, memory s' a x = memory s a x).
+Proof. exact fp_tasks_interleave. Qed.
+Print Assumptions c20_fp_tasks_interleave.
+
+Theorem c20_interleave_example :
+  let '(_, ra, rb) := run_tagged dgram (list N * N) exec ex_seg ex_sched in
+  ra = [([1; 2], 1); ([1; 2], 1)] /\ rb = [([9], 1); ([8], 1); ([9; 8], 1)].
+Proof. exact interleave_example. Qed.
+Print Assumptions c20_interleave_example.
